@@ -482,6 +482,18 @@ fn do_colour(f: &[&str]) -> String {
                         live.remove(0);
                     }
                 }
+                // X: ANOTHER thread, holding no guard, formats a report of its own now; Y: another thread does so under a guard of its
+                // own.  Neither is this thread's business: its guards are its own
+                'X' | 'Y' => {
+                    let (d2, f2, guarded) = (dir.clone(), file.clone(), o == 'Y');
+                    std::thread::spawn(move || {
+                        let _g = if guarded { Some(PlainOutputGuard::new()) } else { None };
+                        let r2 = c17_report(&d2, &f2, 0);
+                        let _ = render(&r2);
+                    })
+                    .join()
+                    .unwrap();
+                }
                 _ => panic!("guard op"),
             }
         }
